@@ -81,6 +81,30 @@ def check_allow_cond(prog, site, entry, reach):
                     if not ok:
                         return False, f"call from {cb.path} is not dominated by the {g['label']} edge of {g['call']}"
         return (n > 0), f"all {n} call sites dominated by the {g['label']} edge of {g['call']}"
+    if "callee_some" in cond:
+        fb = prog.bodies.get(cond["callee_some"])
+        if not fb:
+            return False, f"{cond['callee_some']} not found"
+        nones = core.ok_return_blocks(fb, "None")
+        somes = core.ok_return_blocks(fb, "Some")
+        return (bool(somes) and not nones), f"{cond['callee_some'].split('::')[-1]} returns Some on every path"
+    if "field_built_from" in cond:
+        c = cond["field_built_from"]
+        rx = re.compile(c["call"])
+        n = 0
+        for p, b in prog.bodies.items():
+            if " as std::clone::Clone>::clone" in p:
+                continue  # a clone preserves the field
+            for blk in b.blocks:
+                for s_ in blk["stmts"]:
+                    rv = s_.get("rv")
+                    if rv and rv.get("k") == "agg" and rv.get("adt") == c["struct"]:
+                        n += 1
+                        i = rv["fields"].index(c["field"])
+                        d = core.describe(prog, b, rv["ops"][i])
+                        if not any(rx.search(x[1]) for x in core.desc_calls(d)):
+                            return False, f"{c['struct']} is built in {p} with {c['field']} = {d[0]}"
+        return n > 0, f"all {n} construction sites of {c['struct'].split('::')[-1]} build {c['field']} from {c['call']}"
     if "assume" in cond:
         return True, "assumption: " + cond["assume"]
     return False, "allow entry has no checkable condition"
